@@ -6,10 +6,14 @@ import (
 )
 
 var commands = map[string]func([]string){
-	"imports": cmdImports,
-	"cases":   cmdCases,
-	"heap":    cmdHeap,
-	"output":  cmdOutput,
+	"imports":     cmdImports,
+	"cases":       cmdCases,
+	"heap":        cmdHeap,
+	"output":      cmdOutput,
+	"det":         cmdDet,
+	"conc-sched":  cmdConcSched,
+	"conc-orders": cmdConcOrders,
+	"conc-free":   cmdConcFree,
 }
 
 func main() {
